@@ -125,7 +125,7 @@ CLAIMS = {
         "reopening finds the same end and the real length, also when the map is full to its last byte. DELINEATION ON READ (delineate_ignores_what_follows): the event is cut "
         "out exactly however many bytes (4 GiB and more) of later events lie behind it. Correspondence: histories with event sizes 0 B..3 map chunks and exact-fit events, "
         "every returned offset and every id re-read after every step on the real store vs model, the map file's length vs the model's after every step incl. reopen and rebuild; "
-        "Event::delineate on slices continuing 0..3x4 GiB behind the event; direct oracle: bytes equal an independent Python encoding of what was submitted; the file never shrinks. Forced two-thread schedules: two stores of ONE id (same bytes, or different bytes under one id) through every yield point - exactly one offset, the other duplicate, the stored one reads back by id.",
+        "Event::delineate on slices continuing 0..3x4 GiB behind the event; direct oracle: bytes equal an independent Python encoding of what was submitted; the file never shrinks. Forced two-thread schedules: two stores of ONE id Histories that start in a pre-sized event.map (PRE: 1..5 chunks, odd lengths), file length vs the model at every step; growth-step races (a store growing the map paused at every point while another thread stores chunk-sized events: whatever returned an offset reads back whole). (same bytes, or different bytes under one id) through every yield point - exactly one offset, the other duplicate, the stored one reads back by id.",
    note=PROOF_NOTE + 'Modelled, not verified: LMDB (ordered maps, snapshot reads inside a write transaction, atomic commit), the mmap-append event map; the seven index tables are modelled as functions of the set of indexed events with range scans as filter+key-order sort. ' + "'Forever' across process restarts relies on the kernel keeping file contents (modelled).",
    technique="Lean 4 proof (invariant by induction over operation sequences) + differential correspondence with a byte-level direct oracle",
    design="6/C04"),
@@ -133,7 +133,7 @@ CLAIMS = {
    text="Lean theorem: for every state and event, if store_event returns anything but Ok, every table (index, id markers, address markers, extra) is exactly "
         "what it was, hence every lookup, marker query, find_events answer and entry count is unchanged; earlier offsets still read back. Direct, model-free "
         "oracle on the real store: the whole probe battery before a failing store equals the battery after it, over histories aimed at failures after "
-        "effects (k-th foreign tag after k-1 own ones, replaced after pre-removal, LMDB key-size error after earlier tags). FAULT INJECTION for the any-other-error clause: newer/older versions of an address, deletion requests by id and by address, regular events and duplicates stored while all LMDB reader slots are taken (RDF): whenever the call returns an error the battery is unchanged. REFINEMENT (store_refines_abstract, every_history_refines_abstract): on every reachable state the concrete model computes exactly the abstract store of Spec/AbsStore.lean, for every history incl. vanish and rebuild; on the abstract side the property is three lines (abstract_failed_store). The Lean abstract store follows every history in the driver and is compared with the independently written Python specification after every step (SPC).",
+        "effects (k-th foreign tag after k-1 own ones, replaced after pre-removal, LMDB key-size error after earlier tags). FAULT INJECTION for the any-other-error clause: newer/older versions of an address, deletion requests by id and by address, regular events and duplicates stored while all LMDB reader slots are taken (RDF): whenever the call returns an error the battery is unchanged. REFINEMENT (store_refines_abstract error_before_commit_noop: in the micro-step model every state a call passes through before its commit has the tables of the state before; second fault FSZ (the map file cannot grow: file-size limit) - forty stores until the map is full, every failing call leaves the battery unchanged., every_history_refines_abstract): on every reachable state the concrete model computes exactly the abstract store of Spec/AbsStore.lean, for every history incl. vanish and rebuild; on the abstract side the property is three lines (abstract_failed_store). The Lean abstract store follows every history in the driver and is compared with the independently written Python specification after every step (SPC).",
    note=PROOF_NOTE + 'Modelled, not verified: LMDB (ordered maps, snapshot reads inside a write transaction, atomic commit), the mmap-append event map; the seven index tables are modelled as functions of the set of indexed events with range scans as filter+key-order sort. ' + "The bytes of a refused event stay in the map (not an observable of this property; rebuild reclaims them).",
    technique="Lean 4 proof (case analysis of the transaction discipline) + model-free before/after battery oracle + differential correspondence",
    design="6/C12"),
@@ -187,7 +187,7 @@ CLAIMS = {
         "that was retrievable stays retrievable and reads back unchanged; no deletion marker appears on another key's stored event; no address marker of "
         "another key changes; over whole histories of events by other keys the victim stays. Correspondence + direct oracle: requests with 0-5 e/a tags "
         "mixing own/foreign/absent/malformed targets at random points of histories; every foreign event retrievable and unmarked afterwards; plus forced "
-        "two-thread schedules: another author's request (by id and by address) overlapping the victim's store at every yield point - a victim stored successfully stays retrievable and unmarked. FAULT INJECTION: the request arrives while all 126 LMDB reader slots are taken (worker request RDF), so target lookups fail instead of answering - whatever it replies, the victim stays retrievable and unmarked.",
+        "two-thread schedules: another author's request (by id and by address) overlapping the victim's store at every yield point - a victim stored successfully stays retrievable and unmarked. FAULT INJECTION: ON THE SPECIFICATION (spec_foreign_history_harmless): the same over whole histories of the abstract store, by refinement. the request arrives while all 126 LMDB reader slots are taken (worker request RDF), so target lookups fail instead of answering - whatever it replies, the victim stays retrievable and unmarked.",
    note=PROOF_NOTE + 'Modelled, not verified: LMDB (ordered maps, snapshot reads inside a write transaction, atomic commit), the mmap-append event map; the seven index tables are modelled as functions of the set of indexed events with range scans as filter+key-order sort. ' + "Victims are retrievable events; a marker placed on an id that is not stored is the code's documented choice and outside the property.",
    technique="Lean 4 proof (induction over the request's tag list with a confinement invariant) + differential correspondence + direct oracle",
    design="6/C10"),
@@ -200,7 +200,7 @@ CLAIMS = {
         "Covered, by induction over histories incl. rebuild) - so everything an accepted deletion covers is unretrievable in every continuation. "
         "Correspondence + abstract specification after every step: reply classes, the retrievable set and both marker tables with their times; plus forced "
         "two-thread schedules (a deletion request racing with the event it covers, by id and by address, paused at every yield point, both directions) judged "
-        "by the property text: an accepted request leaves the covered event unretrievable and refused on resubmission. Identifiers containing the separator of the kind:author:identifier notation (app:settings, a:b:c, a relay URL) in families, address episodes and requests.",
+        "by the property text: an accepted request leaves the covered event unretrievable and refused on resubmission. Identifiers containing the separator ON THE SPECIFICATION (spec_covered): in every state the abstract store reaches a marked id is not retrievable and every retrievable event is newer than the deletion time of its address. of the kind:author:identifier notation (app:settings, a:b:c, a relay URL) in families, address episodes and requests.",
    note=PROOF_NOTE + 'Modelled, not verified: LMDB (ordered maps, snapshot reads inside a write transaction, atomic commit), the mmap-append event map; the seven index tables are modelled as functions of the set of indexed events with range scans as filter+key-order sort. ' + "Marker placed on an id that is not stored yet: the code's documented choice.",
    technique="Lean 4 proof (marker monotonicity and the Covered invariant by induction over histories) + differential correspondence with the abstract specification",
    design="6/C11"),
